@@ -298,6 +298,10 @@ def gen_case(rng, k):
                 for bi, b in enumerate(brs): defs["Br%d" % bi] = b
                 brs = [ref("Br%d" % bi) for bi in range(len(brs))]
             xs[rng.randrange(len(xs))] = {comb: brs}
+        if mode == "object" and len(xs) >= 3 and rng.random() < 0.3:
+            # a bare `allOf` nested in the `allOf` (the grouping of a conjunction carries no meaning)
+            i_ = rng.randrange(len(xs) - 1)
+            xs[i_:i_ + 2] = [{"allOf": xs[i_:i_ + 2]}]
         if mode == "not":
             names = rng.sample(PROPS, 1 if rng.random() < 0.8 else 2)
             xs.insert(rng.randrange(len(xs) + 1), {"not": {"type": "object", "required": sorted(names)}})
@@ -330,7 +334,11 @@ def gen_case(rng, k):
                 return {"type": "array", "items": its, "minItems": len(its), "maxItems": len(its)}
             if rng.random() < 0.25:
                 ts = [copy.deepcopy(rng.choice(SCALARS[:3])) for _ in range(rng.choice([1, 2, 2, 3]))]
-                return {"type": "array", "items": ts, "minItems": len(ts), "maxItems": len(ts)}
+                t_ = {"type": "array", "items": ts, "minItems": len(ts), "maxItems": len(ts)}
+                if rng.random() < 0.4: t_["additionalItems"] = False       # (nothing beyond the positions anyway)
+                return t_
+            if rng.random() < 0.12:      # one item schema that admits several types (meets a tuple position by position)
+                return {"type": "array", "items": {"type": rng.sample(["string", "integer", "boolean"], 2)}}
             a = {"type": "array", "items": copy.deepcopy(rng.choice(SCALARS[:3] + [{}]))}
             if rng.random() < 0.3: a["minItems"] = rng.randint(0, 2)
             if rng.random() < 0.3: a["maxItems"] = rng.randint(1, 3)
